@@ -638,7 +638,10 @@ def run_round(c):
         rec["oracle"].append("side-car-presence")
     st_r, r = attempt(lambda: df.Field.from_file(path))
     txt = rep == "txt"
-    if txt and subs and c["save"]:
+    if txt and subs and c["save"] and any(float(f"{x:.11g}") != x for cc in fo["coords"] for x in
+                                          [float(v) for a in range(3) for v in np.asarray(
+                                              getattr(f.mesh.vertices, f.mesh.region.dims[a]), dtype=float)]):
+        # some vertex needs more than the 11 digits the text form keeps
         rec["tags"].append(T_TXTSUB)
     if st_r != "ok":
         rec["oracle"].append("round-trip-rejected")
@@ -765,7 +768,7 @@ def run_legacy(c):
     rec["oracle"] = sorted(set(rec["oracle"]))
     side = "None" if c["side"] is None else f"(Some {c_subs(c['side'])})"
     rec.update(obs=jsafe(obs),
-               coq=f"CLegacy {g.b(c['exact'])} {g.qll(coords)} {g.b(c['vec'])} {g.qll(rows)} {side} {cobs}",
+               coq=f"CLegacy {g.b(c['exact'] and min(n) >= 2)} {g.qll(coords)} {g.b(c['vec'])} {g.qll(rows)} {side} {cobs}",
                key=f"legacy/{c['exact']}/{c['variant']}/{tuple(n)}/{c['vec']}/{st}", size=sum(n))
     shutil.rmtree(d, ignore_errors=True)
     return rec
